@@ -22,7 +22,7 @@ STUBS = silence_logging() + plain_error_messages()
 FORMS = ["plain", "default", "field_default", "field_init_false", "field_kw_only", "field_factory", "classvar", "initvar", "kw_only_marker", "property"]
 CHILD_FORMS = tiered(["plain", "default", "field_kw_only", "field_init_false", "kw_only_marker"], FORMS)
 DECOS = ["", "(init=False)", "(kw_only=True)", "(init=True, kw_only=False)"]
-SHAPES = ["single", "dataclass_child", "plain_child", "handwritten_init", "not_a_dataclass", "three_levels"]
+SHAPES = ["single", "dataclass_child", "plain_child", "handwritten_init", "not_a_dataclass", "three_levels", "plain_middle", "nested"]
 
 
 def field_line(name, form):
@@ -45,7 +45,16 @@ def render(shape, deco, cdeco, f1, f2, g1, g1name, g2):
     if shape == "not_a_dataclass":
         src += ["class Base:", field_line("a", f1), field_line("b", f2)]
         return "\n".join(src) + "\n", "Base"
+    if shape == "nested":
+        # the dataclass is nested in a class that has a hand-written __init__ of its own
+        src += ["class Outer:", "    def __init__(self, q): ...", ""]
+        src += ["    " + ln for ln in "\n".join([f"@dataclass{deco}", "class Base:", field_line("a", f1), field_line("b", f2)]).split("\n")]
+        return "\n".join(src) + "\n", "Outer.Base"
     src += [f"@dataclass{deco}", "class Base:", field_line("a", f1), field_line("b", f2)]
+    if shape == "plain_middle":
+        # dataclass <- undecorated class with annotated attributes (NOT fields) <- dataclass
+        src += ["", "class Child(Base):", "    c: float = 1.0", "    z = 0", "", "@dataclass", "class Leaf(Child):", "    e: int = 9"]
+        return "\n".join(src) + "\n", "Leaf"
     if shape == "handwritten_init":
         src += ["    def __init__(self, x, /, y=0): ..."]
     last = "Base"
@@ -78,7 +87,9 @@ def cpython_view(src, names):
     out = {}
 
     for n in names:
-        cls = ns[n]
+        cls = ns[n.split(".")[0]]
+        for part in n.split(".")[1:]:
+            cls = getattr(cls, part)
         own_init = "__init__" in cls.__dict__
         sig = inspect.signature(cls.__init__) if cls.__init__ is not object.__init__ else None
         params = None if sig is None else [(p.name, p.kind.name.lower(), p.default is inspect.Parameter.empty) for p in sig.parameters.values()]
@@ -110,7 +121,9 @@ def griffe_view(src, names):
 
 def compare(shape, deco, cdeco, f1, f2, g1, g1name, g2):
     src, last = render(shape, deco, cdeco, f1, f2, g1, g1name, g2)
-    names = ["Base"] + (["Child"] if shape in ("dataclass_child", "plain_child", "three_levels") else []) + (["Leaf"] if shape == "three_levels" else [])
+    names = ["Base"] + (["Child"] if shape in ("dataclass_child", "plain_child", "three_levels", "plain_middle") else []) + (["Leaf"] if shape in ("three_levels", "plain_middle") else [])
+    if shape == "nested":
+        names = ["Outer.Base"]
     want = cpython_view(src, names)
     if want is None:
         return "rejected", None
@@ -157,7 +170,7 @@ def override_gap(base_form, child_form):
 def _cases():
     out = []
     for shape in SHAPES:
-        for deco in (DECOS if shape == "single" else tiered(["", "(kw_only=True)", "(init=False)"], DECOS) if shape == "dataclass_child" else DECOS[:1]):
+        for deco in (DECOS if shape in ("single", "nested") else tiered(["", "(kw_only=True)", "(init=False)"], DECOS) if shape == "dataclass_child" else DECOS[:1]):
             for cdeco in (DECOS[:3] if shape == "dataclass_child" else DECOS[:1]):
                 out.append(dict(shape=shape, deco=deco, cdeco=cdeco))
     return out
